@@ -8,6 +8,8 @@
 //@import mean_abs_dev.rs.tpl
 //@import compose_ma.rs.tpl
 //@import reversal.rs.tpl
+//@import ema.rs.tpl
+//@import ma_laws.rs.tpl
 
 // ================================================================== CommodityChannelIndex
 //@extract src/indicators/commodity_channel_index.rs const:SCALE
@@ -123,6 +125,8 @@ impl HullMovingAverage {
 		!self.valid() ==> r is Err,
 		r is Ok ==> r->Ok_0.inv() && r->Ok_0.cfg == self && r->Ok_0.pivot.high.index == 0 && r->Ok_0.pivot.low.index == 0,
 		r is Ok ==> r->Ok_0.pivot.high.left == self.left && r->Ok_0.pivot.high.right == self.right,
+		// C08: the constant state for the candle's source price (hma_ind_const_step)
+		r is Ok ==> r->Ok_0.const_state(src_val(candle, self.source)),
 //@replace Ok(Self::Instance { ==> Ok(HullMovingAverageInstance {
 //@replace ReversalSignal::new(cfg.left, cfg.right, &src)? ==> ReversalSignal::new3(cfg.left, cfg.right, &src)?
 //@end
@@ -144,6 +148,41 @@ impl HullMovingAverageInstance {
 //@hint result
 	proof { assert(hma_ind_step(old(self), tmp0__, self, r.vals()[0], r.sigs()[0])); }
 //@end
+}
+
+// ---- C08 at indicator level: HullMovingAverage fed the candle it was initialised with returns the source price and never signals
+// (HMA can overshoot on a varying stream, but on windows that hold one value all three weighted averages return that value)
+pub open spec fn hma_const_state(h: &HMA, s: real) -> bool {
+	h.inv() && all_within(h.wma1.window.view(), s, s) && all_within(h.wma2.window.view(), s, s) && all_within(h.wma3.window.view(), s, s)
+}
+pub proof fn lemma_wma_within_step(pre: &WMA, x: &ValueType, post: &WMA, out: &ValueType, s: real)
+	requires pre.inv(), all_within(pre.window.view(), s, s), x@ == s, WMA::step(pre, x, post, out)
+	ensures all_within(post.window.view(), s, s), out@ == s
+{
+	let v = post.window.view();
+	assert forall|i: int| 0 <= i < v.len() implies s <= (#[trigger] v[i])@ <= s by {
+		if i < v.len() - 1 { assert(v[i] == pre.window.view()[i + 1]); }
+	}
+	wma_range(v, s, s);
+}
+pub proof fn hma_const_step(pre: &HMA, x: ValueType, post: &HMA, out: ValueType)
+	requires hma_const_state(pre, x@), post.inv(), HMA::step(pre, &x, post, &out)
+	ensures out@ == x@, hma_const_state(post, x@)
+{
+	let (w1, w2, d) = choose|w1: ValueType, w2: ValueType, d: ValueType| #[trigger] hma_parts(pre, &x, post, &out, w1, w2, d);
+	lemma_wma_within_step(&pre.wma1, &x, &post.wma1, &w1, x@);
+	lemma_wma_within_step(&pre.wma2, &x, &post.wma2, &w2, x@);
+	lemma_wma_within_step(&pre.wma3, &d, &post.wma3, &out, x@);
+}
+impl HullMovingAverageInstance {
+	pub open spec fn const_state(&self, s: real) -> bool { self.inv() && hma_const_state(&self.hma, s) && reversal_const_state(&self.pivot, s) }
+}
+pub proof fn hma_ind_const_step(pre: &HullMovingAverageInstance, src: ValueType, post: &HullMovingAverageInstance, value: ValueType, sig: Action)
+	requires pre.const_state(src@), post.inv(), hma_ind_step(pre, src, post, value, sig)
+	ensures value@ == src@, sv(sig) == 0, post.const_state(src@)
+{
+	hma_const_step(&pre.hma, src, &post.hma, value);
+	reversal_const_step(&pre.pivot, value, &post.pivot, sig);
 }
 } // verus!
 fn main() {}
